@@ -31,8 +31,17 @@ type loaded struct {
 
 var buildMu sync.Mutex
 
+var builtPkgs sync.Map
+
+// buildPkg makes sure p's function bodies are completely built before any of them is
+// executed: Build is idempotent and blocks until a build started by another worker is done
+// (a function whose Blocks are already non-nil may still be under construction).
 func buildPkg(p *ssa.Package) {
+	if _, ok := builtPkgs.Load(p); ok {
+		return
+	}
 	p.Build()
+	builtPkgs.Store(p, true)
 }
 
 func goEnv() []string {
